@@ -2,8 +2,8 @@
 # usage: tools_seed_all.sh <Cxx> [check-id]  -- validate both seeds of a property in its worktree and run the check against them
 pid=$1; chk=${2:-$1}
 for m in m1 m2; do
-  [ -f /tmp/mut/out/$pid/$m.diff ] || continue
+  [ -f ${MUTBASE:-/tmp/mut}/out/$pid/$m.diff ] || continue
   echo "=== $pid $m (check $chk)"
   ./tools_validate_seed.sh $pid $m 2>&1 | tail -1
-  ./tools_seed.sh $chk /tmp/mut/out/$pid/$m.diff 2>&1 | grep -E "VIOLATION|PATCH|exit=|== C" | head -4
+  ./tools_seed.sh $chk ${MUTBASE:-/tmp/mut}/out/$pid/$m.diff 2>&1 | grep -E "VIOLATION|PATCH|exit=|== C" | head -4
 done
